@@ -32,6 +32,7 @@ type trackSpec struct {
 	hasCtts   bool  // write a ctts box (even if all offsets are zero)
 	spc       []int // samples-per-chunk pattern (cycled), every entry >= 1
 	co64      bool
+	sdtp      []byte // optional: one raw sdtp entry per sample
 }
 
 // flat is the property-level view of one sample: what must be conserved.
@@ -82,6 +83,16 @@ func expectedFlags(hasStss, sync bool) uint32 {
 	return 0x00010000
 }
 
+// expectedFlagsSdtp: with an sdtp box the four dependency fields come from its entry
+// (is_leading, depends_on, is_depended_on, has_redundancy); non-sync still comes from stss.
+func expectedFlagsSdtp(hasStss, sync bool, e byte) uint32 {
+	f := uint32(e>>6&3)<<26 | uint32(e>>4&3)<<24 | uint32(e>>2&3)<<22 | uint32(e&3)<<20
+	if hasStss && !sync {
+		f |= 0x00010000
+	}
+	return f
+}
+
 // expectedSamples is the input's per-track sample sequence (decode times accumulated from durations).
 func expectedSamples(trackIdx int, ts trackSpec) []flat {
 	out := make([]flat, len(ts.samples))
@@ -89,6 +100,9 @@ func expectedSamples(trackIdx int, ts trackSpec) []flat {
 	for i, s := range ts.samples {
 		out[i] = flat{dts: dts, dur: s.dur, cto: s.cto, flags: expectedFlags(ts.hasStss, s.sync),
 			data: sampleBytes(trackIdx, i+1, s.size)}
+		if len(ts.sdtp) == len(ts.samples) {
+			out[i].flags = expectedFlagsSdtp(ts.hasStss, s.sync, ts.sdtp[i])
+		}
 		dts += uint64(s.dur)
 	}
 	return out
@@ -225,6 +239,14 @@ func buildProgressive(tracks []trackSpec, mdatFirst bool) ([]byte, error) {
 				}
 			}
 			stbl.AddChild(stss)
+		}
+		// sdtp
+		if len(ts.sdtp) == len(ts.samples) && len(ts.samples) > 0 {
+			es := make([]mp4.SdtpEntry, len(ts.sdtp))
+			for i, e := range ts.sdtp {
+				es[i] = mp4.SdtpEntry(e)
+			}
+			stbl.AddChild(mp4.CreateSdtpBox(es))
 		}
 		// stsz
 		stbl.Stsz.SampleNumber = uint32(len(ts.samples))
